@@ -34,7 +34,7 @@ PatClass(ev) == {"pat_" \o ev.pat} \cup {"build_" \o ev.build}
 Verdict(ev) ==
   CASE ev.ev = "lib.Unexpected" -> << FALSE, {} >>                 \* a call that must succeed failed or panicked
     [] ev.ev = "lk.Layout" ->
-         << ev.point = 104 /\ ev.affine = 64 /\ ev.refcopy /\ HexToInt("01000003d1") = TwoW %% P, {"layout"} >>
+         << ev.point >= 96 /\ ev.affine >= 64 /\ ev.refcopy /\ HexToInt("01000003d1") = TwoW %% P, {"layout"} >>
     [] ev.ev = "lk.Proj" ->
          LET want == IF ev.idx = 0 THEN IdentityImage ELSE ev.tbl[ev.idx] IN
          << ev.out = want /\ ev.ref = want /\ (ev.build = "asm" => ev.out_tail = ev.pre_tail),
